@@ -74,6 +74,181 @@ def lean_int(v):
     return str(v) if v >= 0 else f"({v})"
 
 
+# ---------------------------------------------------------------- event geometry (C05, Model/ViewshedEvents.lean)
+BAD_ROW = "(7, 7, 0, 0, 0, 0)"      # an if-chain branch that could not be read: no theorem accepts it
+
+
+def _sign_cmp(n):
+    """`event_row < viewpoint_row` etc. -> ('row'|'col', sign of event - viewpoint) or None"""
+    if not (isinstance(n, ast.Compare) and len(n.ops) == 1 and isinstance(n.left, ast.Name)
+            and isinstance(n.comparators[0], ast.Name)):
+        return None
+    a, b, op = n.left.id, n.comparators[0].id, n.ops[0]
+    sign = {ast.Lt: -1, ast.Eq: 0, ast.Gt: 1}.get(type(op))
+    if sign is None:
+        return None
+    for axis in ("row", "col"):
+        if (a, b) == (f"event_{axis}", f"viewpoint_{axis}"):
+            return axis, sign
+        if (a, b) == (f"viewpoint_{axis}", f"event_{axis}"):
+            return axis, -sign
+    return None
+
+
+def _offsets(stmts, scale):
+    """`y = event_row - 0.5; x = event_col + 0.5` -> (scale*dy, scale*dx) as ints, or None"""
+    got = {}
+    for st in stmts:
+        if isinstance(st, ast.Assert):
+            continue
+        if not (isinstance(st, ast.Assign) and len(st.targets) == 1 and isinstance(st.targets[0], ast.Name)
+                and st.targets[0].id in ("x", "y")):
+            return None
+        v, base = st.value, {"y": "event_row", "x": "event_col"}[st.targets[0].id]
+        if isinstance(v, ast.Name) and v.id == base:
+            off = 0
+        elif isinstance(v, ast.BinOp) and isinstance(v.left, ast.Name) and v.left.id == base \
+                and isinstance(v.right, ast.Constant) and isinstance(v.op, (ast.Add, ast.Sub)):
+            off = v.right.value * scale * (1 if isinstance(v.op, ast.Add) else -1)
+        else:
+            return None
+        if off != int(off):
+            return None
+        got[st.targets[0].id] = int(off)
+    if set(got) != {"x", "y"}:
+        return None
+    return got["y"], got["x"]
+
+
+def branch_table(func, scale):
+    """the if / elif chain on the position of the event cell relative to the viewpoint, one entry per branch in
+    source order: (sign row, sign col, ENTER dy, dx, EXIT dy, dx), offsets multiplied by `scale`"""
+    if func is None:
+        return [BAD_ROW], ["missing"]
+    chain = None
+    for st in func.body:
+        if isinstance(st, ast.If) and isinstance(st.test, ast.BoolOp) and isinstance(st.test.op, ast.And):
+            chain = st
+            break
+    if chain is None:
+        return [BAD_ROW], ["no if-chain"]
+    rows, notes = [], []
+    node = chain
+    while True:
+        signs = {}
+        ok = isinstance(node.test, ast.BoolOp) and isinstance(node.test.op, ast.And) and len(node.test.values) == 2
+        if ok:
+            for v in node.test.values:
+                sc = _sign_cmp(v)
+                if sc is None or sc[0] in signs:
+                    ok = False
+                    break
+                signs[sc[0]] = sc[1]
+        ent = ext = None
+        if ok and len(node.body) == 1 and isinstance(node.body[0], ast.If):
+            inner = node.body[0]
+            t = inner.test
+            if isinstance(t, ast.Compare) and isinstance(t.left, ast.Name) and t.left.id == "event_type" \
+                    and len(t.ops) == 1 and isinstance(t.ops[0], ast.Eq) and isinstance(t.comparators[0], ast.Name) \
+                    and t.comparators[0].id == "ENTERING_EVENT":
+                ent, ext = _offsets(inner.body, scale), _offsets(inner.orelse, scale)
+        if ok and ent is not None and ext is not None and set(signs) == {"row", "col"}:
+            rows.append(f"({signs['row']}, {signs['col']}, {ent[0]}, {ent[1]}, {ext[0]}, {ext[1]})")
+        else:
+            rows.append(BAD_ROW)
+            notes.append("unreadable branch: " + ast.unparse(node.test))
+        if len(node.orelse) == 1 and isinstance(node.orelse[0], ast.If):
+            node = node.orelse[0]
+            continue
+        # the final else: the viewpoint's own cell
+        off = _offsets(node.orelse, scale) if node.orelse else None
+        if off is not None:
+            rows.append(f"(0, 0, {off[0]}, {off[1]}, {off[0]}, {off[1]})")
+        else:
+            rows.append(BAD_ROW)
+            notes.append("unreadable final else")
+        break
+    return rows, notes
+
+
+def corner_elev_shape(func):
+    """`_calc_event_elev`: where the neighbour comes from, the in-raster guard, the four cells read, the mean"""
+    out = dict(neighbour="?", default="?", guard="?", reads=[], mean="?", nan_fallback="?")
+    if func is None:
+        return out
+    names = {}
+    for st in func.body:
+        if isinstance(st, ast.Assign) and isinstance(st.value, ast.Call) and isinstance(st.value.func, ast.Name) \
+                and isinstance(st.targets[0], ast.Tuple):
+            out["neighbour"] = ast.unparse(st.targets[0]) + " = " + st.value.func.id + "(" + \
+                ", ".join(ast.unparse(a) for a in st.value.args) + ")"
+        elif isinstance(st, ast.Assign) and isinstance(st.targets[0], ast.Name) and st.targets[0].id == "event_elev":
+            out["default"] = ast.unparse(st.value)
+        elif isinstance(st, ast.If):
+            out["guard"] = ast.unparse(st.test)
+            for s2 in st.body:
+                if isinstance(s2, ast.Assign) and isinstance(s2.targets[0], ast.Name) and s2.targets[0].id.startswith("elev"):
+                    names[s2.targets[0].id] = ast.unparse(s2.value)
+                elif isinstance(s2, ast.If):
+                    for s3 in s2.body:
+                        if isinstance(s3, ast.Assign):
+                            out["nan_fallback"] = ast.unparse(s3.value)
+                    for s3 in s2.orelse:
+                        if isinstance(s3, ast.Assign):
+                            out["mean"] = ast.unparse(s3.value)
+    out["reads"] = [names[k] for k in sorted(names)]
+    return out
+
+
+def data_writes(func):
+    """`_init_event_list`: the writes `data[k][j] = e[FIELD]` of the per-cell loop body, split into those before the
+    `continue` that skips the viewpoint's own cell and those after BOTH corner elevations have been computed"""
+    res = dict(before_skip=[], after_elevs=[], elsewhere=[], guards=[])
+    if func is None:
+        return res
+    inner = None
+    for n in ast.walk(func):
+        if isinstance(n, ast.For) and isinstance(n.target, ast.Name) and n.target.id == "j" \
+                and any(isinstance(m, ast.Continue) for m in ast.walk(n)):
+            inner = n
+    if inner is None:
+        return res
+    seen_continue = False
+    elevs = set()
+    for st in inner.body:
+        if isinstance(st, ast.If) and any(isinstance(m, ast.Continue) for m in ast.walk(st)):
+            seen_continue = True
+            continue
+        if isinstance(st, ast.Assign) and isinstance(st.targets[0], ast.Subscript) \
+                and isinstance(st.targets[0].value, ast.Name) and st.targets[0].value.id == "e" \
+                and isinstance(st.value, ast.Call) and isinstance(st.value.func, ast.Name) \
+                and st.value.func.id == "_calc_event_elev":
+            elevs.add(ast.unparse(st.targets[0].slice))
+            continue
+        if isinstance(st, ast.If):
+            for s2 in st.body:
+                t = s2.targets[0] if isinstance(s2, ast.Assign) else None
+                if t is not None and isinstance(t, ast.Subscript) and isinstance(t.value, ast.Subscript) \
+                        and isinstance(t.value.value, ast.Name) and t.value.value.id == "data":
+                    k = ast.unparse(t.value.slice)
+                    rhs = ast.unparse(s2.value)
+                    rhs = rhs[2:-1] if rhs.startswith("e[") and rhs.endswith("]") else "?" + rhs
+                    entry = (int(k) if k.isdigit() else 9, rhs)
+                    if ast.unparse(st.test) not in res["guards"]:
+                        res["guards"].append(ast.unparse(st.test))
+                    if not seen_continue:
+                        res["before_skip"].append(entry)
+                    elif {"E_ELEV_0", "E_ELEV_2"} <= elevs:
+                        res["after_elevs"].append(entry)
+                    else:
+                        res["elsewhere"].append(entry)
+    return res
+
+
+def lean_int_pairs(ps):
+    return "[" + ", ".join(f"({a}, {lean_str(b)})" for a, b in ps) + "]"
+
+
 def generate(repo):
     mod = ast.parse(open(os.path.join(repo, REL)).read())
     out = ["/-! GENERATED by harness/facts_viewshed.py from the current /repo source -- do not edit. -/",
@@ -137,6 +312,33 @@ def generate(repo):
     out.append(f"def visibleTest : String := {lean_str(test)}")
     out.append(f"def visibleStores : String := {lean_str(stored)}")
     out.append("")
+    # event geometry
+    pos_rows, pos_notes = branch_table(find_func(mod, "_calc_event_pos"), 2)
+    rc_rows, rc_notes = branch_table(find_func(mod, "_calculate_event_row_col"), 1)
+    out.append("/-- `_calc_event_pos`: the if-chain on the position of the cell relative to the viewpoint, one entry per branch")
+    out.append("    in source order: (sign of event_row - viewpoint_row, sign of event_col - viewpoint_col, ENTER 2*dy, 2*dx,")
+    out.append("    EXIT 2*dy, 2*dx); the last entry is the final `else` (the viewpoint's own cell) -/")
+    out.append("def calcEventPosTable : List (Int × Int × Int × Int × Int × Int) := [" + ", ".join(pos_rows) + "]")
+    out.append("/-- `_calculate_event_row_col`: the same chain, offsets (dy, dx) of the diagonal neighbour -/")
+    out.append("def calcEventRowColTable : List (Int × Int × Int × Int × Int × Int) := [" + ", ".join(rc_rows) + "]")
+    ce = corner_elev_shape(find_func(mod, "_calc_event_elev"))
+    out.append("/-- `_calc_event_elev`: neighbour, default, in-raster guard, the four cells read (elev1..elev4), NaN fallback, mean -/")
+    out.append(f"def cornerElevNeighbour : String := {lean_str(ce['neighbour'])}")
+    out.append(f"def cornerElevDefault : String := {lean_str(ce['default'])}")
+    out.append(f"def cornerElevGuard : String := {lean_str(ce['guard'])}")
+    out.append(f"def cornerElevReads : List String := {lean_strs(ce['reads'])}")
+    out.append(f"def cornerElevNanFallback : String := {lean_str(ce['nan_fallback'])}")
+    out.append(f"def cornerElevMean : String := {lean_str(ce['mean'])}")
+    dw = data_writes(find_func(mod, "_init_event_list"))
+    out.append("/-- `_init_event_list`: writes `data[k][j] = e[FIELD]` (the observer-row buffer that seeds the status structure):")
+    out.append("    before the `continue` that skips the viewpoint's own cell / after both corner elevations are computed /")
+    out.append("    anywhere else in the per-cell loop body; and the guards they stand under -/")
+    out.append(f"def dataWritesBeforeSkip : List (Int × String) := {lean_int_pairs(dw['before_skip'])}")
+    out.append(f"def dataWritesAfterElevs : List (Int × String) := {lean_int_pairs(dw['after_elevs'])}")
+    out.append(f"def dataWritesElsewhere : List (Int × String) := {lean_int_pairs(dw['elsewhere'])}")
+    out.append(f"def dataWriteGuards : List String := {lean_strs(dw['guards'])}")
+    out.append("")
     out.append("end XrsVerif.Gen.Viewshed")
-    rep.update(consts=consts, observer=obs, fill=fill, lexsort=lexkeys, test=test, stored=stored)
+    rep.update(consts=consts, observer=obs, fill=fill, lexsort=lexkeys, test=test, stored=stored,
+               event_pos_notes=pos_notes, event_row_col_notes=rc_notes, corner_elev=ce, data_writes=dw)
     yield "ViewshedFacts.lean", "\n".join(out) + "\n", rep
